@@ -157,6 +157,17 @@ CHECKS["C15"] = (
     "mass, names = synonyms.",
     "Assumes TLC and the projection (counts scaled by 1e4). Monosaccharide formulas travel as raw table rows.",
     "DESIGN.md §6 C15")
+CHECKS["C14"] = (
+    "TLA+ clauses over the returned isotopic pattern in exact fixed-point arithmetic (Trace_Isotope; limb arithmetic "
+    "and isotope-mean consistency of the independent table model-checked in MC_Isotope) + TLC trace validation of "
+    "recorded isotopic_distribution / merge_isotopic_distributions calls",
+    "TLC judges each recorded pattern: sorted by mass; largest peak (or total) equals the requested abundance; without "
+    "pruning the lightest peak is the monoisotopic mass of the composition including e/p/n and the abundance-weighted "
+    "mean is its average mass (both from the independent Nist table); the neutron-offset view equals the mass view "
+    "binned by nominal mass; merging adds abundances at equal masses.",
+    "Assumes TLC and the projection (abundances quantised to 1e-8). The exact multinomial comparison for small formulas "
+    "is not implemented yet (see DESIGN.md limits); patterns above 1200 peaks are skipped in the quick tier.",
+    "DESIGN.md §6 C14")
 NOT_YET = "check not built yet in this round (planned with the TLA+ technique, see DESIGN.md §6)"
 
 
